@@ -132,7 +132,7 @@ theorem hws_infix {b s : Bytes} (h : ∀ x ∈ b, isHws x = true) (hs : s <:+: b
 theorem interactEvent_frames {cfg : Cfg} {complete : List Bytes} {Pr Pc : Bytes → Bool} {ev : Ev} {st : Step}
     (hstrict : cfg.rough = false) (hret : cfg.ret = [NL])
     (hg : GoodStep cfg complete Pr Pc ev st) (rest : List Step) (acc : Bytes)
-    (w : Wire) (hres : ∀ x ∈ w.avail, isHws x = true) :
+    (w : Wire) (hres : ∀ x ∈ w.avail, isHws x = true) (hheld : w.held = []) :
     ∃ t' t'' cuts', t' ++ t'' = st.t ∧
       interactEvent cfg scriptDev complete ev acc (w, st :: rest) =
         some (acc ++ w.avail ++ (if st.echo then ev.1 else []) ++ st.body ++ NL :: st.q ++ t',
@@ -164,7 +164,8 @@ theorem interactEvent_frames {cfg : Cfg} {complete : List Bytes} {Pr Pc : Bytes 
         rw [squishBuf_append, hws_squishBuf hres, squishBuf_text hg.no_bs]; rfl
       obtain ⟨b1, L, cuts1, hru1, hsplit1, hL⟩ :=
         readUntil_echo input { w with avail := w.avail ++ input, writes := w.writes ++ [input] }
-          hpl1 hvis hF1
+          hpl1 hheld hvis hF1
+      simp only [hheld] at hru1
       have hsub : L.Sublist (w.avail ++ input) := by
         have : L.Sublist (b1 ++ L) := List.sublist_append_right _ _
         rw [hsplit1] at this; exact this
@@ -175,12 +176,12 @@ theorem interactEvent_frames {cfg : Cfg} {complete : List Bytes} {Pr Pc : Bytes 
         · exact hg.no_nl h
       refine ⟨b1, L, cuts1, hL, hLnl, hpl1.sublist hsub, ?_, ?_⟩
       · simp only [front, her, ↓reduceIte, List.append_nil]; exact hsplit1
-      · simp only [her', ↓reduceIte, hstrict, front, her, List.append_nil]; exact hru1
+      · simp only [her', ↓reduceIte, hstrict, front, her, List.append_nil, hheld]; exact hru1
     · have her0 : echoRead (input, resp, hidden) = false := by simpa using her
       have her' : (!resp.isEmpty && !hidden && !input.isEmpty) = false := her0
       refine ⟨[], w.avail, w.cuts, hws_squishBuf hres, hws_noNL hres, hws_plain hres, ?_, ?_⟩
       · simp [front, her0]
-      · simp [her', front, her0]
+      · simp [her', front, her0, hheld]
   obtain ⟨b1, L, cuts1, hL, hLnl, hLpl, hsplit1, hr1⟩ := hph1
   -- phase 2: write the return, read up to the expected response or a completion pattern
   have hw2 : Wire.write scriptDev
@@ -218,7 +219,7 @@ theorem interactEvent_frames {cfg : Cfg} {complete : List Bytes} {Pr Pc : Bytes 
       (L ++ front (input, resp, hidden) st ++ st.body) st.q st.t
       { avail := L ++ front (input, resp, hidden) st ++ st.respond, cuts := cuts1,
         writes := w.writes ++ [input, [NL]] }
-      hav2 hpl2 hS (hg.quiet L hL hLnl) hg.noEarly hok hg.q_nl (hws_noNL hg.t_hws) hg.q_ne hg.fits_window
+      hav2 hpl2 rfl hS (hg.quiet L hL hLnl) hg.noEarly hok hg.q_nl (hws_noNL hg.t_hws) hg.q_ne hg.fits_window
   -- the done flag
   have htpre : t' <+: st.t := ⟨t'', htt⟩
   have hz : st.q ++ t' ≠ [] := by simp [hg.q_ne]
@@ -286,29 +287,30 @@ theorem interactLoop_frames {cfg : Cfg} {complete : List Bytes}
     (hstrict : cfg.rough = false) (hret : cfg.ret = [NL]) :
     ∀ (ps : List (Ev × Step)) (extra : List Step) (acc : Bytes) (w : Wire),
       (∀ p ∈ ps, ∃ Pr Pc, GoodStep cfg complete Pr Pc p.1 p.2) →
-      (∀ x ∈ w.avail, isHws x = true) →
+      (∀ x ∈ w.avail, isHws x = true) → w.held = [] →
       ∃ raw w', interactLoop cfg scriptDev complete (ps.map (·.1)) acc (w, ps.map (·.2) ++ extra) =
           some (raw, (w', (ps.drop (consumed complete ps).length).map (·.2) ++ extra)) ∧
         raw ++ w'.avail = acc ++ w.avail ++ ((consumed complete ps).map (fun p => stepText p.1 p.2)).flatten ∧
         (∀ x ∈ w'.avail, isHws x = true) ∧
         (∀ p, (consumed complete ps).getLast? = some p → w'.avail <:+ p.2.t) ∧
-        w'.writes = w.writes ++ ((consumed complete ps).map (fun p => [p.1.1, [NL]])).flatten := by
+        w'.writes = w.writes ++ ((consumed complete ps).map (fun p => [p.1.1, [NL]])).flatten ∧
+        w'.held = [] := by
   intro ps
   induction ps with
   | nil =>
-    intro extra acc w _ hres
+    intro extra acc w _ hres hheld
     exact ⟨acc, w, by simp [interactLoop, consumed], by simp [consumed], hres, by simp [consumed],
-      by simp [consumed]⟩
+      by simp [consumed], hheld⟩
   | cons p ps ih =>
-    intro extra acc w hgood hres
+    intro extra acc w hgood hres hheld
     obtain ⟨Pr, Pc, hg⟩ := hgood p (by simp)
     obtain ⟨t', t'', cuts', htt, hev⟩ :=
-      interactEvent_frames hstrict hret hg (ps.map (·.2) ++ extra) acc w hres
+      interactEvent_frames hstrict hret hg (ps.map (·.2) ++ extra) acc w hres hheld
     have ht''hws : ∀ x ∈ t'', isHws x = true := fun x hx =>
       hg.t_hws x (by rw [← htt]; exact List.mem_append_right _ hx)
     by_cases hend : p.2.ends complete = true
     · refine ⟨acc ++ w.avail ++ (if p.2.echo then p.1.1 else []) ++ p.2.body ++ NL :: p.2.q ++ t',
-        { avail := t'', cuts := cuts', writes := w.writes ++ [p.1.1, [NL]] }, ?_, ?_, ht''hws, ?_, ?_⟩
+        { avail := t'', cuts := cuts', writes := w.writes ++ [p.1.1, [NL]] }, ?_, ?_, ht''hws, ?_, ?_, rfl⟩
       · simp only [List.map_cons, List.cons_append, interactLoop, hev, hend, ↓reduceIte, consumed,
           List.length_singleton, List.drop_succ_cons, List.drop_zero]
       · simp only [consumed, hend, ↓reduceIte, List.map_cons, List.map_nil, List.flatten_cons,
@@ -320,11 +322,11 @@ theorem interactLoop_frames {cfg : Cfg} {complete : List Bytes}
         exact ⟨t', htt⟩
       · simp [consumed, hend]
     · have hend' : p.2.ends complete = false := by simpa using hend
-      obtain ⟨raw, w', hloop, hcons, hhws, hlast, hwr⟩ :=
+      obtain ⟨raw, w', hloop, hcons, hhws, hlast, hwr, hheld'⟩ :=
         ih extra (acc ++ w.avail ++ (if p.2.echo then p.1.1 else []) ++ p.2.body ++ NL :: p.2.q ++ t')
           { avail := t'', cuts := cuts', writes := w.writes ++ [p.1.1, [NL]] }
-          (fun q hq => hgood q (List.mem_cons_of_mem _ hq)) ht''hws
-      refine ⟨raw, w', ?_, ?_, hhws, ?_, ?_⟩
+          (fun q hq => hgood q (List.mem_cons_of_mem _ hq)) ht''hws rfl
+      refine ⟨raw, w', ?_, ?_, hhws, ?_, ?_, hheld'⟩
       · simp only [List.map_cons, List.cons_append, interactLoop, hev, hend', Bool.false_eq_true,
           ↓reduceIte, consumed, List.length_cons, List.drop_succ_cons]
         exact hloop
